@@ -64,7 +64,8 @@ impl<'a> G<'a> {
                 _ => json!(["n", self.rng.range(1, 9)]),
             };
         }
-        match self.rng.below(14) {
+        match self.rng.below(16) {
+            14 | 15 => json!(["xduce", self.gen(depth - 1)]),
             0 => json!(["add", self.gen(depth - 1), self.gen(depth - 1)]),
             1 => json!(["tr", self.id(), self.gen(depth - 1)]),
             2 | 3 => json!(["wind", self.id(), self.gen(depth - 1)]),
@@ -125,6 +126,8 @@ fn render(e: &Value) -> String {
         "boom" => format!("(begin (error \"raised by a handler\") {})", render(&a[1])),
         "let" => format!("(let ((x {})) (+ x {}))", render(&a[1]), render(&a[2])),
         "hof" => format!("(car (map (lambda (q) {}) (list 0)))", render(&a[1])),
+        // a callback invoked by a native procedure: the VM is re-entered from Rust
+        "xduce" => format!("(car (transduce (list 0) (mapping (lambda (q) {})) (into-list)))", render(&a[1])),
         "apply" => format!("(apply (lambda (a) (+ a {})) (list 1))", render(&a[1])),
         "tail" => format!("((lambda () {}))", render(&a[1])),
         "gc" => format!("(begin (#%gc-collect) {})", render(&a[1])),
@@ -190,7 +193,7 @@ fn model(e: &Value, armed: i64, trace: &mut Vec<i64>) -> Result<i64, Unwind> {
             let y = model(&a[2], armed, trace)?;
             Ok(x + y)
         }
-        "hof" | "tail" | "gc" => model(&a[1], armed, trace),
+        "hof" | "tail" | "gc" | "xduce" => model(&a[1], armed, trace),
         "apply" => Ok(1 + model(&a[1], armed, trace)?),
         _ => Ok(0),
     }
@@ -273,6 +276,8 @@ impl Scenario for C08 {
                 "error-inside-handler-of-nested-with-handler"
             } else if escape_from_nested_handler(&tree, &mut Vec::new()) {
                 "escape-from-nested-handler"
+            } else if escape_crosses_native_callback(&tree, &mut Vec::new()) {
+                "escape-out-of-native-callback"
             } else {
                 "general"
             };
@@ -301,6 +306,8 @@ impl Scenario for C08 {
                 "error-inside-handler-of-nested-with-handler"
             } else if escape_from_nested_handler(&tree, &mut Vec::new()) {
                 "escape-from-nested-handler"
+            } else if escape_crosses_native_callback(&tree, &mut Vec::new()) {
+                "escape-out-of-native-callback"
             } else {
                 "general"
             };
@@ -417,7 +424,7 @@ impl Scenario for C08 {
     }
 
     fn rule(&self) -> String {
-        "each evaluation = one forked run: a generated expression tree (depth 2-6) over + / trace / dynamic-wind / with-handler (handler bodies are trees too) / fault points / call/cc with escapes to any enclosing continuation / let / map callback / apply / tail call / explicit collection; the tree is evaluated once with no fault and once per fault point with that point raising (Scheme error, primitive type error, index error, or host function Err), all on the same engine; optionally a generator-style re-entry of a wind extent 2-4 times; forced full collections at rate {0,1/8,1}, JIT on/off; oracle = a tree evaluator giving the exact value/error and the exact wind/handler trace; non-trivial = a wind extent was entered or a fault reached a handler".into()
+        "each evaluation = one forked run: a generated expression tree (depth 2-6) over + / trace / dynamic-wind / with-handler (handler bodies are trees too) / fault points / call/cc with escapes to any enclosing continuation / let / map callback / callback of a native procedure (transduce) / apply / tail call / explicit collection; the tree is evaluated once with no fault and once per fault point with that point raising (Scheme error, primitive type error, index error, or host function Err), all on the same engine; optionally a generator-style re-entry of a wind extent 2-4 times; forced full collections at rate {0,1/8,1}, JIT on/off; oracle = a tree evaluator giving the exact value/error and the exact wind/handler trace; non-trivial = a wind extent was entered or a fault reached a handler".into()
     }
     fn assumptions(&self) -> Vec<String> {
         vec![
@@ -503,6 +510,37 @@ fn escape_from_nested_handler(e: &Value, path: &mut Vec<(u8, i64)>) -> bool {
             r
         }
         _ => a.iter().skip(1).any(|c| c.is_array() && escape_from_nested_handler(c, path)),
+    }
+}
+
+/// Does the tree contain an escape to a continuation captured outside a native
+/// callback (`xduce`) from inside that callback?
+fn escape_crosses_native_callback(e: &Value, path: &mut Vec<(u8, i64)>) -> bool {
+    let a = match e.as_array() {
+        Some(a) => a,
+        None => return false,
+    };
+    match a[0].as_str().unwrap_or("") {
+        "escape" => {
+            let c = a[1].as_i64().unwrap();
+            if let Some(pos) = path.iter().rposition(|p| p.0 == 1 && p.1 == c) {
+                return path[pos + 1..].iter().any(|p| p.0 == 2);
+            }
+            false
+        }
+        "xduce" => {
+            path.push((2, 0));
+            let r = escape_crosses_native_callback(&a[1], path);
+            path.pop();
+            r
+        }
+        "callcc" => {
+            path.push((1, a[1].as_i64().unwrap()));
+            let r = escape_crosses_native_callback(&a[2], path);
+            path.pop();
+            r
+        }
+        _ => a.iter().skip(1).any(|c| c.is_array() && escape_crosses_native_callback(c, path)),
     }
 }
 
